@@ -479,11 +479,15 @@ class C03(Family):
                      "CtrlVerif.Props.C03Rus"]    # remove_useless_states / configuration history preserve the map
     extra_modules = extra_modules + ["CtrlVerif.Props.C03GenSS", "CtrlVerif.Props.C03GenTF",
                                      "CtrlVerif.Props.C03GenData"]   # source-text tie (py2lean_conv)
+    extra_modules = extra_modules + ["CtrlVerif.Props.C03GenFrdCtor"]   # source-text tie of FRD.__init__ / frd (py2lean_frdctor)
 
     def pre_build(self):
         import os
         from core import py2lean_conv, leanproj
         problems, self.gen_info_conv = py2lean_conv.regenerate(os.environ.get("VERIF_REPO") or "/repo", leanproj.LEAN)
+        from core import py2lean_frdctor
+        problems_fc, self.gen_info_frdctor = py2lean_frdctor.regenerate(os.environ.get("VERIF_REPO") or "/repo", leanproj.LEAN)
+        problems = problems + problems_fc
         return problems
     externals = ["scipy.signal.tf2ss (exact counterpart in the model: normalize + controller canonical form)",
                  "scipy.signal.ss2tf / numpy.poly of eigenvalues (model: certified Faddeev-LeVerrier; "
